@@ -31,9 +31,9 @@ func pickDur(w *vsim.World, label string, set ...time.Duration) time.Duration {
 func drawKnobs(w *vsim.World) knobs {
 	s := time.Second
 	k := knobs{
-		ProbeInterval:       pickDur(w, "k-probe", 2*s, s, 5*s, 10*s),
+		ProbeInterval:       pickDur(w, "k-probe", 5*s, 2*s, 10*s),
 		SyncInterval:        pickDur(w, "k-sync", 5*s, 2*s, 20*s, 60*s),
-		PollInterval:        pickDur(w, "k-poll", 2*s, s, 5*s, 10*s),
+		PollInterval:        pickDur(w, "k-poll", 5*s, 2*s, 10*s),
 		TimeoutBooting:      pickDur(w, "k-tboot", 60*s, 20*s, 600*s),
 		TimeoutIdle:         pickDur(w, "k-tidle", 10*s, 4*s, 60*s),
 		TimeoutProbe:        pickDur(w, "k-tprobe", 60*s, 15*s, 600*s),
